@@ -1,6 +1,8 @@
 """C05 - Gaussian conditioning and marginalisation are exact."""
 from fractions import Fraction
 
+import math
+
 import numpy as np
 from hypothesis import strategies as st
 
@@ -10,7 +12,7 @@ from harness.hyp import job_seed, run_property, scaled
 
 PROP = "C05"
 EPS = 2.0 ** -52
-KAPPA_MAX = 1e12
+KAPPA_MAX = 1e10
 RULE = ("Hypothesis: rational means, covariances Sigma = B B^T + diag(d) with small dyadic B (p<=7, rank 1..p) and d>0 "
         "(positive definite by construction) or d=0 outside the conditioning block (singular Sigma, well-conditioned X "
         "block), scaled by 4^s for s in [-20,20]; disjoint index lists Y, X in a drawn ORDER, presented as int / list / "
@@ -72,10 +74,24 @@ def float_cov(case, cov):
     return np.array(X.to_float(cov)).reshape(p, p)
 
 
+def unit(v):
+    """Power of two nearest to sqrt(v): the natural unit of a coordinate with variance v (exact scaling in binary floats)."""
+    v = float(v)
+    if v <= 0:
+        return Fraction(1)
+    e = int(round(math.log2(v) / 2.0))
+    return Fraction(2) ** e
+
+
 def exact_conditional(mean, cov, Y, Xi, x):
+    """Exact conditional (mean, covariance) of Y given X = x, plus the norms that scale the floating-point tolerance.
+    All norms are taken after *equilibration* - every coordinate expressed in its own unit 2^k ~ standard deviation - so
+    that the tolerance is invariant under a change of units (a norm-wise bound on badly scaled matrices would be vacuous)."""
     ny = len(Y)
+    uy = [unit(cov[i][i]) for i in Y]
     if not Xi:
-        return [mean[i] for i in Y], X.block(cov, Y, Y), 1.0, {}
+        return [mean[i] for i in Y], X.block(cov, Y, Y), 1.0, {"uy": [float(u) for u in uy], "empty": True}
+    ux = [unit(cov[i][i]) for i in Xi]
     Sxx = X.block(cov, Xi, Xi)
     Sxx_inv = X.inv(Sxx)
     Syx = X.block(cov, Y, Xi)
@@ -92,18 +108,30 @@ def exact_conditional(mean, cov, Y, Xi, x):
         c = X.sub(X.block(cov, Y, Y), X.mm(X.mm(Syx, Sxx_inv), X.T(Syx)))
         m = X.vadd([mean[i] for i in Y], X.mv(X.mm(Syx, Sxx_inv), dx))
         form = "schur_exact"
-    norms = {"kx": float(X.norm_inf(Sxx) * X.norm_inf(Sxx_inv)), "syx": float(X.norm_inf(Syx)), "sxy": float(X.norm_inf(X.T(Syx))),
-             "sxxinv": float(X.norm_inf(Sxx_inv)), "dx": float(X.vnorm_inf(dx)), "syy": float(X.norm_inf(X.block(cov, Y, Y))),
-             "my": float(X.vnorm_inf([mean[i] for i in Y])), "form": form}
+    # equilibrated blocks
+    nx = len(Xi)
+    Sxx_s = [[Sxx[a][b] / (ux[a] * ux[b]) for b in range(nx)] for a in range(nx)]
+    Sxx_inv_s = [[Sxx_inv[a][b] * (ux[a] * ux[b]) for b in range(nx)] for a in range(nx)]
+    Syx_s = [[Syx[a][b] / (uy[a] * ux[b]) for b in range(nx)] for a in range(ny)]
+    Syy_s = [[cov[Y[a]][Y[b]] / (uy[a] * uy[b]) for b in range(ny)] for a in range(ny)]
+    dx_s = [dx[b] / ux[b] for b in range(nx)]
+    norms = {"kx": float(X.norm_inf(Sxx_s) * X.norm_inf(Sxx_inv_s)), "syx": float(X.norm_inf(Syx_s)), "sxy": float(X.norm_inf(X.T(Syx_s))),
+             "sxxinv": float(X.norm_inf(Sxx_inv_s)), "dx": float(X.vnorm_inf(dx_s)), "syy": float(X.norm_inf(Syy_s)),
+             "my": [abs(float(mean[i])) for i in Y], "uy": [float(u) for u in uy], "form": form}
     return m, c, norms["kx"], norms
 
 
-def _tols(n, norms):
-    if not norms:
-        return 0.0, 0.0
+def _tols(n, norms, loose=0.0):
+    """Entry-wise tolerances (vector for the mean, matrix for the covariance): an equilibrated norm-wise bound
+    1000 * eps * n * cond * |S_yx| |S_xx^-1| |S_xy|, mapped back to the units of the Y coordinates."""
+    uy = np.array(norms["uy"])
+    if norms.get("empty"):
+        return np.zeros(len(uy)), np.zeros((len(uy), len(uy)))
     k = norms["kx"]
-    tol_cov = 100 * EPS * n * k * norms["syx"] * norms["sxxinv"] * norms["sxy"] + 100 * EPS * norms["syy"] + 1e-300
-    tol_mean = 100 * EPS * n * k * norms["syx"] * norms["sxxinv"] * norms["dx"] + 100 * EPS * norms["my"] + 1e-300
+    t_cov = 1000 * EPS * n * k * norms["syx"] * norms["sxxinv"] * norms["sxy"] + 100 * EPS * norms["syy"] + loose * norms["syy"]
+    t_mean = 1000 * EPS * n * k * norms["syx"] * norms["sxxinv"] * norms["dx"] + loose * norms["syx"] * norms["sxxinv"] * norms["dx"]
+    tol_cov = t_cov * np.outer(uy, uy) + 1e-300
+    tol_mean = t_mean * uy + (100 * EPS + loose) * np.array(norms["my"]) + 1e-300
     return tol_mean, tol_cov
 
 
@@ -115,14 +143,17 @@ def _compare(dist, m, c, tol_mean, tol_cov, what, ctx, acc_ratio=None):
         raise Violation("bad_shape", "%s: mean %r covariance %r, expected %d variables; %s" % (what, gm.shape, gc.shape, ny, ctx))
     wm = np.array(X.vto_float(m))
     wc = np.array(X.to_float(c)).reshape(ny, ny)
-    em = np.abs(gm - wm).max() if ny else 0.0
-    ec = np.abs(gc - wc).max() if ny else 0.0
-    if acc_ratio is not None:
-        acc_ratio.append(max(em / tol_mean if tol_mean else 0.0, ec / tol_cov if tol_cov else 0.0))
-    if not em <= tol_mean:
-        raise Violation("mean_wrong", "%s: mean %s vs exact %s (err %.3g > tol %.3g); %s" % (what, gm.tolist(), wm.tolist(), em, tol_mean, ctx))
-    if not ec <= tol_cov:
-        raise Violation("cov_wrong", "%s: covariance %s vs exact %s (err %.3g > tol %.3g); %s" % (what, gc.tolist(), wc.tolist(), ec, tol_cov, ctx))
+    em = np.abs(gm - wm)
+    ec = np.abs(gc - wc)
+    if acc_ratio is not None and ny:
+        acc_ratio.append(max(float((em / tol_mean).max()) if np.all(tol_mean > 0) else 0.0, float((ec / tol_cov).max()) if np.all(tol_cov > 0) else 0.0))
+    if not (em <= tol_mean).all():
+        k = int(np.argmax(em / np.maximum(tol_mean, 1e-300)))
+        raise Violation("mean_wrong", "%s: mean %s vs exact %s (entry %d: err %.3g > tol %.3g); %s" % (what, gm.tolist(), wm.tolist(), k, em[k], tol_mean[k], ctx))
+    if not (ec <= tol_cov).all():
+        k = np.unravel_index(int(np.argmax(ec / np.maximum(tol_cov, 1e-300))), ec.shape)
+        raise Violation("cov_wrong", "%s: covariance %s vs exact %s (entry %s: err %.3g > tol %.3g); %s"
+                        % (what, gc.tolist(), wc.tolist(), tuple(int(v) for v in k), ec[k], tol_cov[k], ctx))
 
 
 def check(case):
@@ -209,11 +240,11 @@ def check(case):
             step1 = must(lib(dist.conditional, inter, list(X1), [float(v) for v in x[:k]]), "conditional step 1")
             pos = {v: n for n, v in enumerate(inter)}
             step2 = must(lib(step1.conditional, [pos[v] for v in Y], [pos[v] for v in X2], [float(v) for v in x[k:]]), "conditional step 2")
-            scale_c = norms["syy"] + 1e-300
-            scale_m = norms["my"] + norms["syx"] * norms["sxxinv"] * norms["dx"] + 1e-300
-            _compare(step2, m, c, 1e-7 * scale_m + tm, 1e-7 * scale_c + tc, "two-step conditioning (%s then %s)" % (X1, X2), ctx)
+            tm_l, tc_l = _tols(len(Xi) + 1, norms, loose=1e-7)
+            _compare(step2, m, c, tm_l, tc_l, "two-step conditioning (%s then %s)" % (X1, X2), ctx)
             lab.append("two_step")
-        lab.append("max_ratio_bucket_%s" % ("lt1e-2" if max(ratios) < 1e-2 else "lt1" if max(ratios) < 1 else "ge1"))
+        r = max(ratios) if ratios else 0.0
+        lab.append("max_ratio_bucket_%s" % ("lt1e-3" if r < 1e-3 else "lt1e-2" if r < 1e-2 else "lt1e-1" if r < 1e-1 else "lt1"))
     return lab
 
 
